@@ -277,6 +277,9 @@ def binop(op, a, b, spec=False):
     raise Unsupported('binop ' + op)
 
 
+PROV = {}       # z3 id of an array term -> how it was built (kept alive by the entry itself)
+
+
 def _is_vec(v):
     from .interp import RangeVal
     return (isinstance(v, SSeq) and v.kind == 'nd') or isinstance(v, RangeVal)
@@ -303,7 +306,10 @@ def vec_binop(op, a, b):
         vb = vec(b)
         x, y, n = z3real(a), z3.Select(vb.arr, j + vb.off), vb.n
     body = {'+': x + y, '-': x - y, '*': x * y, '/': x / y}[op]
-    return SSeq(LAM(j, body), 0, n, 'nd', 'real')
+    out = SSeq(LAM(j, body), 0, n, 'nd', 'real')
+    if op == '-' and _is_vec(a) and not _is_vec(b):
+        PROV[out.arr.get_id()] = ('diff', va, y, out.arr)       # provenance: array minus scalar (see models.m_np_argmin)
+    return out
 
 
 def is_num_choice(ch):
@@ -367,7 +373,11 @@ def absval(a):
     if isinstance(a, SSeq) and a.kind == 'nd' and a.ek in ('int', 'real'):
         j = z3.Int('j!abs')      # numpy: element-wise absolute value
         x = z3.Select(a.arr, j + a.off)
-        return SSeq(LAM(j, z3.If(x >= 0, x, -x)), 0, a.n, 'nd', a.ek)
+        out = SSeq(LAM(j, z3.If(x >= 0, x, -x)), 0, a.n, 'nd', a.ek)
+        pv = PROV.get(a.arr.get_id())
+        if pv is not None and pv[0] == 'diff' and z3.is_int_value(z3.simplify(a.off)) and z3.simplify(a.off).as_long() == 0:
+            PROV[out.arr.get_id()] = ('absdiff', pv[1], pv[2], out.arr)
+        return out
     return abs(a)
 
 
